@@ -403,6 +403,37 @@ def _native_images(tier="quick", seed=0):
                 ideal = want[0] * 3000 / want[1]
                 if pic2.height != 3000 or abs(pic2.width - ideal) > 0.5 + 1e-9:
                     bad = bad or ("aspect", "%s 4x3 dpi %r EXIF orientation %d: height 3000 gives width %s, ideal %.3f" % (fmt, dpi, orient, pic2.width, ideal))
+    # the images the library brings itself (speaker icon of a movie without poster frame, icon of an embedded object) obey the same
+    # rule: stored once however many shapes use them, also when the deck already holds them after a re-open
+    from pptx.enum.shapes import PROG_ID
+
+    def image_digests(p_):
+        from pptx.parts.image import ImagePart
+
+        out = {}
+        for part_ in p_.part.package.iter_parts():
+            if isinstance(part_, ImagePart):
+                out.setdefault(hashlib.sha1(part_.blob).hexdigest(), []).append(str(part_.partname))
+        return out
+
+    for k in range(2):
+        evals += 1
+        s1.shapes.add_movie(io.BytesIO(b"\x00\x00\x00\x18ftypmp42 movie %d" % k), Emu(0), Emu(0), Emu(100), Emu(100), mime_type="video/mp4")
+        s2.shapes.add_movie(io.BytesIO(b"\x00\x00\x00\x18ftypmp42 other %d" % k), Emu(0), Emu(0), Emu(100), Emu(100), mime_type="video/mp4")
+        s1.shapes.add_ole_object(io.BytesIO(b"PK sheet %d" % k), PROG_ID.XLSX, Emu(0), Emu(0))
+        s2.shapes.add_ole_object(io.BytesIO(b"PK doc %d" % k), PROG_ID.DOCX, Emu(0), Emu(0))
+    dup = {d_: n_ for d_, n_ in image_digests(prs).items() if len(n_) > 1}
+    if dup:
+        bad = bad or ("dedup", "after movies without poster frame and embedded objects with the default icon: identical image bytes stored as several parts %s" % sorted(dup.values())[:2])
+    b_ = io.BytesIO()
+    prs.save(b_)
+    prs_r = Presentation(io.BytesIO(b_.getvalue()))
+    sr = prs_r.slides[0]
+    sr.shapes.add_movie(io.BytesIO(b"\x00\x00\x00\x18ftypmp42 after re-open"), Emu(0), Emu(0), Emu(100), Emu(100), mime_type="video/mp4")
+    sr.shapes.add_ole_object(io.BytesIO(b"PK sheet after re-open"), PROG_ID.XLSX, Emu(0), Emu(0))
+    dup = {d_: n_ for d_, n_ in image_digests(prs_r).items() if len(n_) > 1}
+    if dup:
+        bad = bad or ("dedup", "re-opened deck, one more movie and embedded object: identical image bytes stored as several parts %s" % sorted(dup.values())[:2])
     names = [str(p.partname) for p in set(seen.values())]
     if len(names) != len(set(names)):
         bad = bad or ("names", "two image parts share a part name")
